@@ -121,6 +121,23 @@ def run(ctx):
         ctx.ob("C03.d", FN, prog.exc_is(exc, PROTO), f"explicit raise {exc.split('.')[-1]} is a ProtocolError",
                func=FN, file=file, node=node,
                fail=f"rejection path raises {exc}, which is not a ProtocolError")
+    # C03.d every other way out of decode on arbitrary bytes is a ProtocolError too (may-raise analysis: truncations of any
+    # length, misaligned ciphertext, bad padding - whatever the library calls used for parsing can raise)
+    from ..raises import Config, Raises, Val
+    R_ = Raises(prog, Config())
+    dfn = ctx.fn(FN)
+    _rv, esc = R_.analyze(dfn, {dfn.params[-1]: Val(taint=True, kind="bytes")}, self_cls=dfn.cls)
+    bad = [e for e in esc if not prog.exc_is(str(e), PROTO)]
+    seen_d = set()
+    ctx.ob("C03.d", FN, not bad, "no exception other than ProtocolError escapes _Packet.decode for any byte string", func=FN, file=file,
+           construct="exceptions escaping decode") if not bad else None
+    for e in bad:
+        k = (str(e), e.site["function"], e.site["construct"])
+        if k in seen_d:
+            continue
+        seen_d.add(k)
+        ctx.ob("C03.d", e.site["function"], False, "", func=e.site["function"], file=e.site["file"], construct=f"{e.site['construct']} -> {e}",
+               fail=f"{e} can escape _Packet.decode [{e.why}] via {' -> '.join(q.split('.')[-1] for q in e.chain)}: a truncated / altered packet is not rejected with a ProtocolError")
     ctx.require_min("returns", 1)
     ctx.require_min("comparisons", 1)
     ctx.require_min("raises", 1)
